@@ -34,7 +34,7 @@ Proof. exact trace_value_shape_lemma. Qed.
 Print Assumptions trace_value_shape.
 
 (* BOUNDED companion (a finite sweep, the bound is in the statement): for EVERY spec shape of nesting depth <= 2 with at most
-   two children per node over leaf / dict / chain / Coalesce / Or / Switch (100110 shapes, every success / failure pattern
+   two children per node over leaf / dict / chain / Coalesce / Or / Switch / Check-style guard (109074 shapes, every success / failure pattern
    of the leaves), the trace the breadcrumb machine produces is exactly the structural reading of the property
    (Spec/TraceSpec.v: ancestors in order with the targets received, chain steps done, every attempted branch with its own
    failure trace, abandoned branches absent, errors where they were raised).  The unbounded statement is validated on every
@@ -53,4 +53,10 @@ Example ex_branches_listed :
   = (Exc 5003, [TR 1 7 None []; TR 2 7 None [];
                 TR 3 2002 (Some 5003) [[TR 4 2002 None []; TR 5 2002 None []; TR 6 2005 (Some 6) []];
                                        [TR 7 2002 None []; TR 8 2002 None []; TR 9 2008 (Some 9) []]]]).
+Proof. vm_compute. reflexivity. Qed.
+(* a guard that refuses after its sub-spec succeeded, recorded as the ONLY failed branch of a Coalesce whose last attempt (a chain
+   ending in a skipped value) is a different frame: both appear as they should — the refusal as a branch, the Coalesce's own error on top *)
+Example ex_guard_branch :
+  run (Alt 1 [Guard 2 false (Leaf 3 true); Chain 4 [SkipLeaf 5]])
+  = (Exc 5001, [TR 1 7 (Some 5001) [[TR 2 7 (Some 6002) []]]]).
 Proof. vm_compute. reflexivity. Qed.
